@@ -50,6 +50,8 @@ struct FabricInner {
     fail_recv: HashSet<usize>,
     /// datagram fates are choice points while > 0 (counts down)
     fate_budget: usize,
+    /// eligible datagrams to let pass (default fate) before the budget starts counting
+    fate_skip: usize,
     /// restrict fate choice points to datagrams between these two nodes (either direction)
     fate_pair: Option<(usize, usize)>,
     reorder_delay_us: u64,
@@ -135,7 +137,10 @@ impl quinn::AsyncUdpSocket for SockState {
             }
         };
         let mut fate = Fate::Deliver;
-        if g.fate_budget > 0 && dst.is_some() && !link_down && in_pair {
+        let eligible = g.fate_budget > 0 && dst.is_some() && !link_down && in_pair;
+        if eligible && g.fate_skip > 0 {
+            g.fate_skip -= 1;
+        } else if eligible {
             g.fate_budget -= 1;
             let reorder = g.reorder_delay_us;
             let c = f.chooser.lock().unwrap().choose("dg", 4);
@@ -342,6 +347,7 @@ impl Fabric {
                 down: HashSet::new(),
                 fail_recv: HashSet::new(),
                 fate_budget: 0,
+                fate_skip: 0,
                 fate_pair: None,
                 reorder_delay_us: 3 * default_latency_us + 1000,
                 keep_log: true,
@@ -417,6 +423,12 @@ impl Fabric {
     /// The next `n` eligible datagrams are fate choice points.
     pub fn set_fate_budget(&self, n: usize) {
         self.inner.lock().unwrap().fate_budget = n;
+    }
+    /// Let `skip` eligible datagrams pass, then make the next `n` fate choice points.
+    pub fn set_fate_window(&self, skip: usize, n: usize) {
+        let mut g = self.inner.lock().unwrap();
+        g.fate_skip = skip;
+        g.fate_budget = n;
     }
     pub fn fate_budget(&self) -> usize {
         self.inner.lock().unwrap().fate_budget
